@@ -37,7 +37,7 @@ AXIOMS = ["np.sum=ADD", "np.prod=MUL", "np.power/int-negint-raises", "np.power/-
 
 
 def cases(rng, n, tier):
-    for i in range(n):
+    for i in range(max(n, len(AXIOMS))):                        # every assumed contract is sampled at least once in every run
         ax = AXIOMS[i % len(AXIOMS)]
         yield {"class": "axiom/" + ax, "input": {"axiom": ax, "seed": rng.randrange(10 ** 9)}}
 
